@@ -89,8 +89,59 @@ pub fn c01(a: &Args) {
         out.query("counts", "", &d.nodes.iter().map(|n| n.count.to_string()).collect::<Vec<_>>().join(" "));
         out.sample(format!("{} | n={} | {} -> count {}", file.origin, file.n, file.lines.join(" / "), got));
     });
+    lexical_variants(a, &mut out, &mut rng);
     corpus_c01(a, &mut out);
-    out.finish("G1: every satisfiable function over 1..3 features x every order x {d4 tree, d4 shared, d4 shared+f-edges, c2d tree, c2d shared} (sampled in quick tier), G3: random well-formed d4 / c2d circuits (n<=9); a case is non-trivial when the function is neither constant true nor has <3 lines; distinct by file text");
+    out.finish("G1: every satisfiable function over 1..3 features x every order x {d4 tree, d4 shared, d4 shared+f-edges, c2d tree, c2d shared} (sampled in quick tier), G3: random well-formed d4 / c2d circuits (n<=9); a case is non-trivial when the function is neither constant true nor has <3 lines; distinct by file text; lexical variants: the raw lines of generated files with blanks doubled / turned into tabs, leading zeros, dropped or doubled terminators, trailing blanks and junk, signs: the real loader (array or panic) vs the character-level lexer models + loader model");
+}
+
+/// the same files, but the text is not in the writer's normal form: the real lexers + loader against the
+/// character-level lexer models (`q d4text` / `q c2dtext`; a panic of the real loader must be `panic` there)
+fn lexical_variants(a: &Args, out: &mut Out, rng: &mut Rng) {
+    let enc = |l: &str| -> String { if l.is_empty() { "%".to_string() } else { l.chars().map(|c| match c { ' ' => '_', '\t' => '~', c => c }).collect() } };
+    let mut picked: Vec<GenFile> = Vec::new();
+    let mut r2 = rng.fork();
+    let cfg = space_cfg(a, false);
+    let want = if a.thorough() { 400 } else { 120 };
+    let mut seen = 0usize;
+    for_each_model(&cfg, &mut r2, |file, _| { seen += 1; if picked.len() < want && seen % 7 == 0 { picked.push(file.clone()); } });
+    for file in picked {
+        for _ in 0..3 {
+            let mut lines = file.lines.clone();
+            let nmut = 1 + rng.below(3);
+            let is_d4 = matches!(file.fmt, Fmt::D4);
+            for _ in 0..nmut {
+                // the c2d header is only padded (the code trims it); a broken header would select the other loader
+                let i = rng.below(lines.len());
+                let l = lines[i].clone();
+                let header = !is_d4 && i == 0;
+                let words: Vec<&str> = l.split(' ').collect();
+                let m = if header { rng.below(2) } else { 2 + rng.below(9) };
+                lines[i] = match m {
+                    0 => format!(" {l}"),
+                    1 => format!("{l}  "),
+                    2 => { let k = rng.below(words.len().max(2) - 1); let mut w: Vec<String> = words.iter().map(|x| x.to_string()).collect(); if k + 1 < w.len() { w[k] = format!("{} ", w[k]); } w.join(" ") }           // a doubled blank
+                    3 => l.replacen(' ', "\t", 1),                                                                                   // a tab
+                    4 => { let k = rng.below(words.len()); words.iter().enumerate().map(|(j, x)| if j == k && x.chars().all(|c| c.is_ascii_digit()) { format!("00{x}") } else { x.to_string() }).collect::<Vec<_>>().join(" ") }   // leading zeros
+                    5 => format!("{l} "),                                                                                             // trailing blank
+                    6 => format!("{l} junk 7"),                                                                                       // trailing junk
+                    7 => if l.ends_with(" 0") { l[..l.len() - 2].to_string() } else { format!("{l}0") },                                // terminator dropped / doubled
+                    8 => { let k = rng.below(words.len()); words.iter().enumerate().map(|(j, x)| if j == k && x.chars().all(|c| c.is_ascii_digit()) { format!("+{x}") } else { x.to_string() }).collect::<Vec<_>>().join(" ") }    // explicit plus sign
+                    9 => l.replace("-", "- "),                                                                                        // detached minus sign
+                    _ => { let k = rng.below(words.len()); words.iter().enumerate().map(|(j, x)| if j == k && x.chars().all(|c| c.is_ascii_digit()) && *x != "0" { "99999999999999999999999".to_string() } else { x.to_string() }).collect::<Vec<_>>().join(" ") }   // a number beyond every integer type
+                };
+            }
+            if lines == file.lines { continue; }
+            let text = lines.join("\n");
+            out.eval(Some(format!("lexvar|{text}")));
+            out.count(if is_d4 { "lexical_variants_d4" } else { "lexical_variants_c2d" }, 1);
+            let (ls, tf) = (lines.clone(), file.total_features());
+            let got = guarded(move || ddnnife::parser::distribute_building(ls, tf, None));
+            let expected = match &got { Ok(d) => crate::persist_props::export_flat(d), Err(_) => "panic".to_string() };
+            out.count(if got.is_ok() { "lexical_variants_loaded" } else { "lexical_variants_panic" }, 1);
+            let encoded = lines.iter().map(|l| enc(l)).collect::<Vec<_>>().join(" ");
+            if is_d4 { out.query("d4text", &format!("{} | {}", file.n, encoded), &expected); } else { out.query("c2dtext", &format!("| {}", encoded), &expected); }
+        }
+    }
 }
 
 fn corpus_c01(a: &Args, out: &mut Out) {
